@@ -217,15 +217,11 @@ TokenData TokenData::FromIndexSequence(const std::string& sequence) {
       index *= 10; // NOLINT: ignore magic number
       index += static_cast<Index>(ch - '0'); // NOLINT: ignore narrowing conversion
     } else {
-      if (index != 0) {
-        indicies.push_back(index);
-      }
+      indicies.push_back(index);
       index = 0;
     }
   }
-  if (index != 0) {
-    indicies.push_back(index);
-  }
+  indicies.push_back(index);
   return TokenData{ indicies };
 }
 
